@@ -356,8 +356,7 @@ Section EdgeProofs.
   Lemma scan_find : forall p l, (forall c, In c l -> In c es) ->
     scan p l = match find adm l with
                | None => Ok None
-               | Some c => do dm <- hav N gc p (cpt c);
-                           Ok (if within_tolerance N tol dm then Some c else None)
+               | Some c => decide N gc tol p c
                end.
   Proof.
     intros p l. induction l as [|c r IH]; intros Hsub; [reflexivity|].
@@ -397,8 +396,7 @@ Section EdgeProofs.
   Lemma search_eq : forall p,
     search p = match find adm (nn_iter p es) with
                | None => Ok None
-               | Some c => do dm <- hav N gc p (cpt c);
-                           Ok (if within_tolerance N tol dm then Some c else None)
+               | Some c => decide N gc tol p c
                end.
   Proof.
     intros p. unfold MM.search. apply scan_find.
@@ -410,9 +408,11 @@ Section EdgeProofs.
   Proof.
     intros p e H. unfold MM.match_edge in H. rewrite search_eq in H.
     destruct (find adm (nn_iter p es)) as [c|] eqn:Ef; [|discriminate].
-    destruct (hav N gc p (cpt c)) as [dm| | |]; cbn [bind] in H; try discriminate.
-    destruct (within_tolerance N tol dm); [|discriminate].
-    injection H as <-. exact (find_iter p c Ef).
+    assert (Hc : c = e).
+    { unfold decide in H. destruct tol as [tu|]; cbn [bind] in H; [|congruence].
+      destruct (hav N gc p (cpt c)) as [dm| | |]; cbn [bind] in H; try discriminate.
+      destruct (within_tolerance N (Some tu) dm); [congruence | discriminate]. }
+    subst e. exact (find_iter p c Ef).
   Qed.
   Lemma match_edge_no_admissible : forall p, (forall c, In c es -> adm c = false) ->
     match_edge p = Err e_failed.
@@ -425,8 +425,9 @@ Section EdgeProofs.
   Proof.
     intros p. unfold MM.match_edge. rewrite search_eq.
     destruct (find adm (nn_iter p es)) as [c|]; [|right; reflexivity].
+    unfold decide. destruct tol as [tu|]; cbn [bind]; [|left; exists c; reflexivity].
     unfold hav. destruct (_ && _ && _ && _); cbn [bind]; [|right; reflexivity].
-    destruct (within_tolerance N tol _); [left; exists c|right]; reflexivity.
+    destruct (within_tolerance N (Some tu) _); [left; exists c|right]; reflexivity.
   Qed.
   (* identical to an exhaustive scan over the admissible edges *)
   Lemma adm_minimal_iff : forall p e, adm_minimal p e <-> minimal_in p (filter adm es) e.
@@ -449,19 +450,16 @@ Section EdgeNoTolerance.
   Variable rcq : option (list Z).
   Variable vc : cand -> bool.
   Hypothesis vc_ok : forall c, In c es -> valid_class rcq lookup c = Ok (vc c).
+  (* no tolerance configured: the nearest admissible edge is matched, whatever the coordinate *)
   Lemma match_edge_no_tolerance : forall p c, In c es -> adm truck_ok vc c = true ->
-    in_range p = true -> (forall c, In c es -> in_range (cpt c) = true) ->
     exists e, match_edge N gc nn_iter es None lookup truck_ok rcq p = Ok e
               /\ adm_minimal es truck_ok vc p e.
   Proof.
-    intros p c Hc Hac Hp Hes. unfold match_edge.
+    intros p c Hc Hac. unfold match_edge.
     rewrite (search_eq N gc nn_iter iter_ok es None lookup truck_ok rcq vc vc_ok).
     destruct (find_iter_some nn_iter iter_ok es truck_ok vc p c Hc Hac) as [e He]. rewrite He.
     pose proof (find_iter nn_iter iter_ok es truck_ok vc p e He) as Hmin.
-    exists e. split; [|exact Hmin]. unfold hav.
-    pose proof (Hes e (proj1 Hmin)) as Hb. unfold in_range in Hp, Hb.
-    apply andb_prop in Hp. destruct Hp as [Hp1 Hp2]. apply andb_prop in Hb. destruct Hb as [Hb1 Hb2].
-    rewrite Hp1, Hp2, Hb1, Hb2. reflexivity.
+    exists e. split; [reflexivity | exact Hmin].
   Qed.
 End EdgeNoTolerance.
 
@@ -486,7 +484,7 @@ Section EdgeTolerance.
     intros p e H Hb. unfold MM.match_edge in H.
     rewrite (search_eq QN gc nn_iter iter_ok es _ lookup truck_ok rcq vc vc_ok) in H.
     destruct (find _ (nn_iter p es)) as [c|]; [|discriminate].
-    unfold hav in H. destruct (_ && _ && _ && _); cbn [bind] in H; [|discriminate].
+    unfold decide, hav in H. destruct (_ && _ && _ && _); cbn [bind] in H; [|discriminate].
     cbn [within_tolerance leb QN] in H.
     destruct (Qle_bool (gc p (cpt c)) (convert_distance QN u Meters t)) eqn:E; [|discriminate].
     injection H as <-. rewrite (edge_cmp_beyond t u _ (gc_nonneg _ _) Hb) in E. discriminate.
@@ -509,7 +507,7 @@ Section EdgeTolerance.
     rewrite (search_eq QN gc nn_iter iter_ok es _ lookup truck_ok rcq vc vc_ok).
     destruct (find_iter_some nn_iter iter_ok es truck_ok vc p c Hc Hac) as [e He]. rewrite He.
     pose proof (find_iter nn_iter iter_ok es truck_ok vc p e He) as Hmin.
-    exists e. split; [|exact Hmin]. unfold hav.
+    exists e. split; [|exact Hmin]. unfold decide, hav.
     pose proof (Hes e (proj1 Hmin)) as Hb. unfold in_range in Hp, Hb.
     apply andb_prop in Hp. destruct Hp as [Hp1 Hp2]. apply andb_prop in Hb. destruct Hb as [Hb1 Hb2].
     rewrite Hp1, Hp2, Hb1, Hb2. cbn [andb bind within_tolerance leb QN].
